@@ -1,6 +1,7 @@
 package core
 
 import (
+	"sort"
 	"bytes"
 	"encoding/json"
 	"fmt"
@@ -24,12 +25,14 @@ type Trace struct {
 type Reject struct {
 	Trace    *Trace
 	EventIdx int    // index (0-based) of the first event that could not be matched / made an invariant false
-	Kind     string // "rejected" (no spec action explains the event) or "invariant:<name>" / "property:<..>"
+	Kind     string // "rejected" (no spec action explains the event), "invariant:<name>", or "dev:<name>" (recorded deviation)
+	Prop     string // property a recorded deviation belongs to
 	Event    Event
 	Detail   string
 }
 
 var (
+	reDev   = regexp.MustCompile(`<<(\d+), \\?"([^"\\]*)\\?", \\?"([^"\\]*)\\?">>`)
 	reDiam  = regexp.MustCompile(`@D (\d+)`)
 	reLineL = regexp.MustCompile(`(?m)^/\\ l = (\d+)`)
 )
@@ -50,6 +53,17 @@ type JudgeOpts struct {
 // invariant of the cfg held in every state. Rejected traces are returned; the
 // remaining traces are still validated.
 func (r *Run) Judge(o JudgeOpts, traces []*Trace) []Reject {
+	defer func() {
+		// deterministic order
+		r.mu.Lock()
+		sort.SliceStable(r.devs, func(i, j int) bool {
+			if r.devs[i].Trace.Name != r.devs[j].Trace.Name {
+				return r.devs[i].Trace.Name < r.devs[j].Trace.Name
+			}
+			return r.devs[i].EventIdx < r.devs[j].EventIdx
+		})
+		r.mu.Unlock()
+	}()
 	if o.MaxRej == 0 {
 		o.MaxRej = 5
 	}
@@ -79,19 +93,28 @@ func (r *Run) Judge(o JudgeOpts, traces []*Trace) []Reject {
 			if len(rejects) >= o.MaxRej {
 				return rejects
 			}
-			// drop the rejected trace, validate the rest
-			nb := batch[:0:0]
-			for _, t := range batch {
-				if t != rej.Trace {
-					nb = append(nb, t)
+			// the traces before the rejected one have been validated completely; continue
+			// with the ones after it
+			idx := 0
+			for i, t := range batch {
+				if t == rej.Trace {
+					idx = i
 				}
 			}
-			batch = nb
+			r.mu.Lock()
+			r.Traces += idx
+			for _, t := range batch[:idx] {
+				r.Events += int64(len(t.Events))
+			}
+			r.mu.Unlock()
+			batch = batch[idx+1:]
 		}
 	}
 	return rejects
 }
 
+// Deviations recorded by the trace specification (property checks that failed while the
+// trace itself could be followed) are appended to r.devs by judgeOnce.
 func (r *Run) judgeOnce(o JudgeOpts, batch []*Trace) (*Reject, string) {
 	var buf bytes.Buffer
 	type loc struct {
@@ -110,6 +133,12 @@ func (r *Run) judgeOnce(o JudgeOpts, batch []*Trace) (*Reject, string) {
 			locs = append(locs, loc{t, i})
 		}
 	}
+	// final line: lets the specification evaluate the state properties of the last state
+	if len(batch) > 0 {
+		enc.Encode(Event{"ev": "Note", "what": "end-of-batch"})
+		last := batch[len(batch)-1]
+		locs = append(locs, loc{last, len(last.Events) - 1})
+	}
 	total := len(locs)
 	res, err := RunTLC(r.Scratch, TLCOpts{Module: o.Module, Config: o.Config, Workers: 1, HeapMB: o.HeapMB,
 		Timeout: o.Timeout, DFS: o.DFS, Files: map[string][]byte{"trace.ndjson": buf.Bytes()}})
@@ -121,10 +150,42 @@ func (r *Run) judgeOnce(o JudgeOpts, batch []*Trace) (*Reject, string) {
 		return nil, "TLC timed out"
 	}
 	diam := -1
+	var devLines [][]string
 	for _, p := range res.Prints {
 		if m := reDiam.FindStringSubmatch(p); m != nil {
 			diam, _ = strconv.Atoi(m[1])
 		}
+		if strings.HasPrefix(p, "@V ") {
+			devLines = reDev.FindAllStringSubmatch(p, -1)
+		}
+	}
+	if len(devLines) > 0 {
+		// keep the first occurrence of every (trace, property, name)
+		type key struct {
+			t    *Trace
+			p, n string
+		}
+		first := map[key]int{}
+		for _, m := range devLines {
+			line, _ := strconv.Atoi(m[1])
+			if line < 1 || line > total {
+				continue
+			}
+			k := key{locs[line-1].t, m[2], m[3]}
+			if old, ok := first[k]; !ok || line < old {
+				first[k] = line
+			}
+		}
+		r.mu.Lock()
+		for k, line := range first {
+			lc := locs[line-1]
+			rj := Reject{Trace: lc.t, EventIdx: lc.idx, Kind: "dev:" + k.n, Prop: k.p}
+			if lc.idx >= 0 {
+				rj.Event = lc.t.Events[lc.idx]
+			}
+			r.devs = append(r.devs, rj)
+		}
+		r.mu.Unlock()
 	}
 	mk := func(line int, kind, detail string) *Reject {
 		// line: 1-based index of the offending trace line
@@ -144,7 +205,7 @@ func (r *Run) judgeOnce(o JudgeOpts, batch []*Trace) (*Reject, string) {
 	if res.OK && diam-1 == total {
 		r.mu.Lock()
 		r.Traces += len(batch)
-		r.Events += int64(total - len(batch))
+		r.Events += int64(total - len(batch) - 1)
 		r.mu.Unlock()
 		return nil, ""
 	}
